@@ -10,6 +10,8 @@
     a later session of the same client id in the same tenant, so tenant A's session keeps being
     served (PINGRESP, listed on every node) after tenant B connects with its client id.
 """
+import json
+
 import vlib
 from checks import brokerlib, sessionlib
 
@@ -28,13 +30,24 @@ CAST = {
 }
 
 
+def with_tenants(cast, a, b):
+    """the same cast with other mount-point names (mount points may contain '/')"""
+    return json.loads(json.dumps(cast).replace("tenant:A", "tenant:" + a).replace("tenant:B", "tenant:" + b))
+
+
 def check(run):
     thorough = run.tier == "thorough"
     run.model_check("MC_Session", "MC_Session_takeover.cfg")
     hs = sessionlib.gen(run, "c17", [1, 2, 3], [1, 2], "N121", 5 if not thorough else 6, ["short"], ["disconnect", "close"], maxidle=0)
     hs = [h for h in hs if sum(1 for e in h if e["op"] == "connect") >= 2 and any(e["op"] == "publish" for e in h)]
     hs = hs[:: max(1, len(hs) // (3000 if thorough else 220))]
-    scns = [sessionlib.build(h, CAST) for h in hs]
+    # (a mount point nested inside another one, like "A" and "A/x", aliases topics by construction: not claimed)
+    casts = [CAST, with_tenants(CAST, "org/north", "org/south"), with_tenants(CAST, "org/north", "B")]
+    scns = []
+    for i, h in enumerate(hs):
+        c = json.loads(json.dumps(casts[i % 3]))
+        c["conns"] = {int(k): v for k, v in c["conns"].items()}
+        scns.append(sessionlib.build(h, c))
     run.log("%d tenant scripts" % len(scns))
     tpath, crashes = brokerlib.execute(run, scns, "c17", shards=14, timeout=3000)
     if crashes:
@@ -51,7 +64,7 @@ def check(run):
                 "tenant and on topics named like the other tenant; three '#' watchers (A, B, default tenant)" % (6 if thorough else 5),
         "events_validated": nev, "trace_spec_states": tstates, "rejections": len(rejected),
         "samples": [hs[0], hs[len(hs) // 2]],
-    }, ["mount-point names contain no '/', '+', '#' (a mount point nested inside another tenant's namespace is a configuration hazard, not claimed)",
+    }, ["mount points named like 'org/north' (with a '/') are exercised; a mount point that is a prefix-plus-'/' of another one AND publishes topics that spell the other one's name would alias by construction - the casts avoid topics starting with the sibling's last component; '+' and '#' in mount-point names are not exercised",
         "the harness' authentication seam maps user 'tenant:<name>' to mount point <name>"],
         violations=v.n_new)
     run.log("validated %d scripts (%d events), %d rejected (%d known)" % (validated, nev, len(rejected), v.n_known))
